@@ -286,6 +286,8 @@ struct Observed {
     /// after the session the store actor of the side under test no longer answers (its thread
     /// died): the node is unusable although the session itself returned
     actor_dead: bool,
+    /// transport family: oracle failures found by the scenario itself (name, detail)
+    transport_bad: Vec<(String, String)>,
 }
 
 const DEADLINE: Duration = Duration::from_secs(5);
@@ -708,6 +710,152 @@ async fn scenario_fault(
     (obs, frames.0, frames.1)
 }
 
+/// (D) the exported transport-level entry points over real QUIC on loopback:
+/// `connect_and_sync` against `handle_connection`, two real endpoints, two real store actors.
+/// `fault`: (side, fault) injected before the session starts.
+async fn scenario_transport(variant: u8, accept: Accept, fault: Option<(u8, Fault)>, deadline: Duration) -> Observed {
+    use iroh::endpoint::presets;
+    use iroh_docs::net::{connect_and_sync, handle_connection, AcceptError, ConnectError};
+    let mut obs = Observed::default();
+    let ents_a = side_entries(0, variant);
+    let ents_b = side_entries(1, variant);
+    let ha = spawn_actor(&ents_a);
+    let hb = spawn_actor(&ents_b);
+    let before_a = handle_dump(&ha, ns_id(0)).await.ok();
+    let before_b = handle_dump(&hb, ns_id(0)).await.ok();
+    let bind = |seed: u8, accepting: bool| async move {
+        let mut b = iroh::Endpoint::builder(presets::Minimal).secret_key(iroh::SecretKey::from_bytes(&[seed; 32]));
+        if accepting {
+            b = b.alpns(vec![iroh_docs::ALPN.to_vec()]);
+        }
+        b.bind().await
+    };
+    let (ep_a, ep_b) = match (bind(0x51, false).await, bind(0x52, true).await) {
+        (Ok(a), Ok(b)) => (a, b),
+        (a, b) => {
+            // machinery, not a verdict
+            panic!("MACHINERY: cannot bind loopback endpoints: {:?} {:?}", a.err().map(|e| e.to_string()), b.err().map(|e| e.to_string()));
+        }
+    };
+    let (id_a, id_b) = (ep_a.id(), ep_b.id());
+    let addr_b = ep_b.addr();
+    if let Some((side, f)) = fault {
+        inject(if side == 0 { &ha } else { &hb }, f).await;
+    }
+    let hb2 = hb.clone();
+    let ep_b2 = ep_b.clone();
+    let asked = std::sync::Arc::new(std::sync::atomic::AtomicBool::new(false));
+    let asked2 = asked.clone();
+    let bob = tokio::task::spawn_local(async move {
+        let incoming = ep_b2.accept().await.ok_or_else(|| "endpoint closed".to_string())?;
+        let conn = incoming.accept().map_err(|e| e.to_string())?.await.map_err(|e| e.to_string())?;
+        let cb = move |_ns: NamespaceId, _peer: iroh::PublicKey| {
+            asked2.store(true, std::sync::atomic::Ordering::SeqCst);
+            async move { accept.outcome() }
+        };
+        Ok::<_, String>(handle_connection(hb2, conn, cb, None).await)
+    });
+    let ha2 = ha.clone();
+    let ep_a2 = ep_a.clone();
+    let alice = tokio::task::spawn_local(async move { connect_and_sync(&ep_a2, &ha2, ns_id(0), addr_b, None).await });
+    let joined = tokio::time::timeout(deadline, async { tokio::join!(alice, bob) }).await;
+    let mut bad: Vec<(String, String)> = vec![];
+    match joined {
+        Err(_) => obs.hang = true,
+        Ok((Ok(ar), Ok(Ok(br)))) => {
+            let show_a = match &ar {
+                Ok(_) => "Ok".to_string(),
+                Err(e) => format!("Err({})", short(&format!("{e:?}"))),
+            };
+            let show_b = match &br {
+                Ok(_) => "Ok".to_string(),
+                Err(e) => format!("Err({})", short(&format!("{e:?}"))),
+            };
+            obs.sut_result = format!("alice={show_a} bob={show_b}");
+            obs.both_ok = Some((ar.is_ok(), br.is_ok()));
+            obs.into_outcome = "ok".into();
+            let was_asked = asked.load(std::sync::atomic::Ordering::SeqCst);
+            // the acceptor can always report which session ended (peer and, once the request
+            // was seen, the document), or the live actor can never free the slot
+            if let Err(e) = &br {
+                if e.peer() != Some(id_a) || (was_asked && e.namespace() != Some(ns_id(0))) {
+                    bad.push(("acceptor_error_names_peer_and_document".into(), format!("acceptor error {show_b}: peer()={:?} namespace()={:?} (callback asked: {was_asked})", e.peer().map(|p| p.fmt_short().to_string()), e.namespace().map(|n| n.fmt_short()))));
+                }
+            }
+            match (accept, fault) {
+                (Accept::Allow, None) => {
+                    match (&ar, &br) {
+                        (Ok(a), Ok(b)) => {
+                            if a.namespace != ns_id(0) || b.namespace != ns_id(0) || a.peer != id_b || b.peer != id_a {
+                                bad.push(("finished_session_names_peer_and_document".into(), format!("initiator reports ({}, {}), acceptor reports ({}, {})", a.namespace.fmt_short(), a.peer.fmt_short(), b.namespace.fmt_short(), b.peer.fmt_short())));
+                            }
+                            obs.counters_mirror = Some(a.outcome.num_sent == b.outcome.num_recv && a.outcome.num_recv == b.outcome.num_sent);
+                            // both hold the merge of both sides
+                            let mut all = ents_a.clone();
+                            all.extend(ents_b.iter().cloned());
+                            let signed: Vec<_> = all.iter().map(|s| s.signed()).collect();
+                            let want = crate::refmodel::ModelReplica::spec(&signed).dump();
+                            let da = handle_dump(&ha, ns_id(0)).await.ok();
+                            let db = handle_dump(&hb, ns_id(0)).await.ok();
+                            if da.as_ref() != Some(&want) || db.as_ref() != Some(&want) {
+                                bad.push(("complete_session_converges".into(), format!("after a complete session over the transport: initiator holds {:?} entries, acceptor {:?}, merge has {}", da.map(|d| d.len()), db.map(|d| d.len()), want.len())));
+                            }
+                        }
+                        _ => bad.push(("healthy_session_succeeds".into(), format!("no fault, request allowed, but {}", obs.sut_result))),
+                    }
+                }
+                (Accept::Allow, Some((side, f))) => {
+                    let ok = if side == 0 { ar.is_ok() } else { br.is_ok() };
+                    if ok {
+                        bad.push(("local_fault_stops_the_session".into(), format!("side {side} reported success although {f:?} was applied to its document before the session ({})", obs.sut_result)));
+                    }
+                }
+                (rej, _) => {
+                    let reason = match rej.outcome() {
+                        AcceptOutcome::Reject(r) => r,
+                        AcceptOutcome::Allow => unreachable!(),
+                    };
+                    // a fault at the initiator may make it fail before it ever sends the request
+                    let initiator_faulted = matches!(fault, Some((0, _)));
+                    let a_ok = matches!(&ar, Err(ConnectError::RemoteAbort(r)) if *r == reason);
+                    let b_ok = matches!(&br, Err(AcceptError::Abort { reason: r, .. }) if *r == reason);
+                    if !initiator_faulted && (!a_ok || !b_ok) {
+                        bad.push(("declined_request_is_reported_as_declined".into(), format!("request declined with {reason:?}: {}", obs.sut_result)));
+                    }
+                    if was_asked {
+                        let da = handle_dump(&ha, ns_id(0)).await.ok();
+                        let db = handle_dump(&hb, ns_id(0)).await.ok();
+                        let faulted = |side: u8| matches!(fault, Some((s, _)) if s == side);
+                        if (!faulted(1) && db != before_b) || (!faulted(0) && da != before_a) {
+                            obs.store_changed_on_reject = true;
+                        }
+                    }
+                }
+            }
+        }
+        Ok((a, b)) => {
+            obs.panic = Some(format!(
+                "task join: alice {:?} bob {:?}",
+                a.err().map(|e| e.to_string()),
+                b.map(|r| r.err()).map_err(|e| e.to_string())
+            ))
+        }
+    }
+    // the store actors survive (unless shut down on purpose)
+    for (side, h) in [(0u8, &ha), (1u8, &hb)] {
+        // (a side whose document was closed or whose actor was stopped on purpose cannot be asked)
+        if !matches!(fault, Some((s, Fault::Shutdown | Fault::CloseDoc)) if s == side) && !obs.hang && !actor_alive(h).await {
+            obs.actor_dead = true;
+        }
+    }
+    obs.transport_bad = bad;
+    ep_a.close().await;
+    ep_b.close().await;
+    let _ = ha.shutdown().await;
+    let _ = hb.shutdown().await;
+    obs
+}
+
 fn short(s: &str) -> String {
     // keep the error variant and the innermost message, drop ids
     let s: String = s.chars().filter(|c| !c.is_ascii_digit()).collect();
@@ -740,6 +888,17 @@ fn judge(obs: &Observed, what: &str) -> Vec<(&'static str, Value, String)> {
     }
     if obs.actor_dead {
         bad.push(("store_actor_survives_the_session", json!({}), format!("{what}: the session returned ({}), but afterwards the store actor no longer answers (its thread died while processing a frame of the peer)", obs.sut_result)));
+    }
+    for (o, d) in &obs.transport_bad {
+        let name: &'static str = match o.as_str() {
+            "acceptor_error_names_peer_and_document" => "acceptor_error_names_peer_and_document",
+            "finished_session_names_peer_and_document" => "finished_session_names_peer_and_document",
+            "complete_session_converges" => "complete_session_converges",
+            "healthy_session_succeeds" => "healthy_session_succeeds",
+            "local_fault_stops_the_session" => "local_fault_stops_the_session",
+            _ => "declined_request_is_reported_as_declined",
+        };
+        bad.push((name, json!({"transport": true}), format!("{what}: {d}")));
     }
     if obs.counters_mirror == Some(false) {
         bad.push(("counters_mirror_on_success", json!({}), format!("{what}: sent/received counters do not mirror")));
@@ -791,6 +950,13 @@ enum Case {
         #[serde(default)]
         must_fail: bool,
     },
+    /// (D) connect_and_sync against handle_connection over real QUIC on loopback
+    Transport {
+        variant: u8,
+        accept: Accept,
+        /// (side, fault) applied before the session starts
+        fault: Option<(u8, Fault)>,
+    },
 }
 
 fn run_case(case: &Case) -> (Observed, String) {
@@ -800,6 +966,7 @@ fn run_case(case: &Case) -> (Observed, String) {
                 Case::Bob { script, accept, variant, hold } => scenario_bob(script, *accept, *variant, *hold, deadline).await,
                 Case::Alice { script, variant, hold } => scenario_alice(script, *variant, *hold, deadline).await,
                 Case::Fault { variant, side, fault, .. } => scenario_fault(*variant, *side, *fault, deadline).await.0,
+                Case::Transport { variant, accept, fault } => scenario_transport(*variant, *accept, *fault, deadline * 2).await,
             }
         })
     };
@@ -924,6 +1091,26 @@ fn run(ctx: &Ctx, report: &mut Report) {
                     let must_fail = k == usize::MAX || k < frames;
                     one(report, Case::Fault { variant, side, fault: Some((k, fault)), must_fail }, true, ordinal);
                 }
+            }
+        }
+    }
+    // (D)
+    let variants: Vec<u8> = if ctx.quick() { vec![0, 3] } else { vec![0, 1, 2, 3] };
+    for variant in variants {
+        for accept in [Accept::Allow, Accept::NotFound, Accept::AlreadySyncing, Accept::Internal] {
+            let mut faults: Vec<Option<(u8, Fault)>> = vec![None];
+            for side in [0u8, 1] {
+                for f in [Fault::CloseDoc, Fault::DisableSync, Fault::Shutdown] {
+                    faults.push(Some((side, f)));
+                }
+            }
+            for fault in faults {
+                ordinal += 1;
+                if !ctx.mine(ordinal) {
+                    continue;
+                }
+                report.count("transport_scenarios", 1);
+                one(report, Case::Transport { variant, accept, fault }, accept != Accept::Allow || fault.is_some(), ordinal);
             }
         }
     }
